@@ -15,7 +15,7 @@ RULE = (
     "(i) every .iwa member of every file under tests/data that the independent codec (vf/iwa.py: own snappy inflater, own "
     "varint/wire parser) accepts as well-formed, and of the bundled template (~5200 files, 118 multi-chunk); (ii) archives "
     "of documents generated through the editing API; (iii) synthetic archives built independently from real message bodies "
-    "with unknown fields appended, 1..40 segments, multi-message segments, stream sizes drawn around 0, 1, 65535, 65536, "
+    "with unknown fields appended, 1..40 segments, multi-message segments, merge segments (one in five: 1..3 full messages followed by 1..3 patches, each a partial message - a subset of the fields - of the class of the message its base_message_index names, index 0 explicit or omitted), stream sizes drawn around 0, 1, 65535, 65536, "
     "65537, 131071..131073, 200k; (iv) for each stream, re-chunkings at Hypothesis-chosen cut points (1 byte .. 64 KiB "
     "pieces), each chunk compressed (literal-only or real snappy) or stored. Oracle: with S the independently inflated "
     "stream, stream(IWAFile.from_buffer(b).to_buffer()) == S byte for byte; segments parsed independently from the output "
@@ -348,6 +348,21 @@ def synthetic(draw, pool):
             msgs.append((mtype, body))
         if nm > 1:
             flags.add("multi_message")
+        if draw(st.integers(0, 4)) == 0:
+            # a merge segment: the full messages are followed by patches, each a partial message of the class of the message its
+            # base_message_index names (shipped files only ever patch message 0 of [full, patch, ...])
+            npatch = draw(st.integers(1, 3))
+            for _ in range(npatch):
+                base = draw(st.integers(0, nm - 1))
+                try:
+                    raws = [f[3] for f in iwa.wire_fields(msgs[base][1])]
+                except Exception:
+                    raws = []
+                mask = draw(st.integers(0, (1 << min(len(raws), 24)) - 1))
+                msgs.append((0, b"".join(r for k, r in enumerate(raws) if k >= 24 or (mask >> k) & 1), base, draw(st.booleans())))
+            flags.add("merge_patch")
+            if nm > 1:
+                flags.add("merge_patch_multi_base")
         ident += draw(st.integers(1, 1000))
         segs.append((ident, msgs))
     return {"segs": segs, "target": target, "flags": sorted(flags)}
@@ -433,7 +448,7 @@ def run_task(ctx, lane, **kw):
         def body(c):
             spec, cs = c
             S = assemble(spec, pool)
-            case = {"lane": "synthetic", "segs": [[i, [[t_, b.hex()] for t_, b in m]] for i, m in spec["segs"]], "target": spec["target"],
+            case = {"lane": "synthetic", "segs": [[i, [[t_, b.hex(), *rest] for t_, b, *rest in m]] for i, m in spec["segs"]], "target": spec["target"],
                     "flags": spec["flags"]}
             data = iwa.build_file(S)
             check_roundtrip(ctx, IWAFile, case, data, S, "synthetic")
@@ -459,7 +474,7 @@ def check_case(ctx, case):
     IWAFile = _lib()
     if case["lane"] == "synthetic":
         pool = message_pool()
-        spec = {"segs": [(i, [(t_, bytes.fromhex(b)) for t_, b in m]) for i, m in case["segs"]], "target": case["target"], "flags": []}
+        spec = {"segs": [(i, [(t_, bytes.fromhex(b), *rest) for t_, b, *rest in m]) for i, m in case["segs"]], "target": case["target"], "flags": []}
         S = assemble(spec, pool)
         if case.get("variant") == "rechunk":
             data = iwa.build_file(S, case["cuts"], real_snappy if case.get("comp") == "snappy" else None, case.get("stored_mask"))
